@@ -508,10 +508,13 @@ def check_result(case):
         res.nontrivial = bool(np.any(np.diff(np.asarray(r.py_get_result(), dtype=float), axis=0) != 0))
         return res
     if what in ("plain_states",):
-        objs = [CellState(time=1.5, state=np.array(case["vec"], dtype=float)),
-                VolumeCellState(time=1.5, state=np.array(case["vec"], dtype=float), volume=2.25),
-                DelayVolumeCellState(time=0.5, state=np.array(case["vec"], dtype=float), volume=1.25),
-                LineageVolumeCellState(v0=1.5, t0=0.25, state=np.array(case["vec"], dtype=float), volume=2.0, time=1.0,
+        # (times and birth times: any real number - zero and negative values included; a cell born at -4 is at time 0
+        # four time units later)
+        tm, t0 = case.get("times", [1.0, 0.25])
+        objs = [CellState(time=tm, state=np.array(case["vec"], dtype=float)),
+                VolumeCellState(time=tm, state=np.array(case["vec"], dtype=float), volume=2.25),
+                DelayVolumeCellState(time=tm, state=np.array(case["vec"], dtype=float), volume=1.25),
+                LineageVolumeCellState(v0=1.5, t0=t0, state=np.array(case["vec"], dtype=float), volume=2.0, time=tm,
                                        divided=case["flags"][0], dead=case["flags"][1])]
         for o in objs:
             c = clone_chain(res, o, how, type(o).__name__)
@@ -828,7 +831,8 @@ def result_cases(draw):
         case.update(lspec=ls, grid=ls["grid"])
     elif what == "plain_states":
         case.update(vec=[float(draw(st.integers(0, 50))) for _ in range(draw(st.integers(1, 4)))],
-                    flags=[draw(st.integers(-1, 2)), draw(st.integers(-1, 2))], grid=[0.0, 1.0])
+                    flags=[draw(st.integers(-1, 2)), draw(st.integers(-1, 2))], grid=[0.0, 1.0],
+                    times=[draw(st.sampled_from([1.0, 1.5, 0.0, 0.0, -2.5])), draw(st.sampled_from([0.25, 0.0, -4.0, 3.0]))])
     else:
         sp, grid = draw(simulable_models())
         case.update(spec=sp, grid=grid)
